@@ -388,3 +388,64 @@ func (w *World) reachStaticPkg(root *ssa.Function) map[*ssa.Function]bool {
 	}
 	return seen
 }
+
+// isTypeWalker: a package-level function over (reflect.Type, map accumulator).
+func isTypeWalker(fn *ssa.Function) bool {
+	if fn.Parent() != nil || fn.Signature.Recv() != nil || fn.Blocks == nil {
+		return false
+	}
+	sig := fn.Signature
+	if sig.Params().Len() != 2 || typeStr(sig.Params().At(0).Type()) != "reflect.Type" {
+		return false
+	}
+	_, isMap := sig.Params().At(1).Type().Underlying().(*types.Map)
+	return isMap
+}
+
+// typeWalkRecCalls: the calls of the type walker fn that can lead back to fn
+// through type walkers handing on the same accumulator: direct self-calls and
+// calls to a sibling walker on a call cycle with fn.
+func (w *World) typeWalkRecCalls(fn *ssa.Function) []*ssa.Call {
+	walkerCalls := func(g *ssa.Function) []*ssa.Call {
+		var out []*ssa.Call
+		for _, b := range g.Blocks {
+			for _, in := range b.Instrs {
+				c, ok := in.(*ssa.Call)
+				if !ok {
+					continue
+				}
+				sc := c.Call.StaticCallee()
+				if sc == nil || !w.inPkg(sc) || !isTypeWalker(sc) || len(c.Call.Args) != 2 || c.Call.Args[1] != ssa.Value(g.Params[1]) {
+					continue
+				}
+				out = append(out, c)
+			}
+		}
+		return out
+	}
+	reaches := func(from *ssa.Function) bool {
+		seen := map[*ssa.Function]bool{from: true}
+		stack := []*ssa.Function{from}
+		for len(stack) > 0 {
+			g := stack[len(stack)-1]
+			stack = stack[:len(stack)-1]
+			if g == fn {
+				return true
+			}
+			for _, c := range walkerCalls(g) {
+				if sc := c.Call.StaticCallee(); !seen[sc] {
+					seen[sc] = true
+					stack = append(stack, sc)
+				}
+			}
+		}
+		return false
+	}
+	var out []*ssa.Call
+	for _, c := range walkerCalls(fn) {
+		if reaches(c.Call.StaticCallee()) {
+			out = append(out, c)
+		}
+	}
+	return out
+}
